@@ -22,13 +22,13 @@ def gen_tables(rng, pf=None):
     n = rng.randint(pf.get("n_min", 30), pf.get("n_max", 120))
     start = core.parse_t(rng.choice(["2021-12-20T00:00:00", "2022-01-03T00:00:00", "2022-02-10T00:00:00", "2019-06-20T00:00:00",
                                      "2018-11-15T00:00:00", "2020-12-21T00:00:00"]))
-    freq = rng.choice(pf.get("freqs", ["B", "B", "D"]))
+    freq = rng.choice(pf.get("freqs", ["B", "B", "D", "H6"]))
     dates = []
     t = start
     while len(dates) < n:
-        if freq == "D" or t.weekday() < 5:
+        if freq in ("D", "H6") or t.weekday() < 5:
             dates.append(t)
-        t += timedelta(days=1)
+        t += timedelta(hours=6) if freq == "H6" else timedelta(days=1)
     nx, ny = rng.randint(1, 4), rng.randint(1, 3)
     X = [[rng.gauss(0, 1) * rng.choice([1, 1, 3]) for _ in range(nx)] for _ in range(n)]
     Y = []
@@ -63,7 +63,7 @@ def gen_tables(rng, pf=None):
         rate = [round(rng.uniform(0, 0.05), 5) for _ in range(n)]
     return {
         "dates": [core.iso(d) for d in dates], "x_rows": xi, "X": [X[j] for j in xi], "Y": Y, "rate": rate,
-        "xcols": ["x{}".format(j) for j in range(nx)], "ycols": ["y{}".format(j) for j in range(ny)], "faults": faults,
+        "xcols": ["x{}".format(j) for j in range(nx)], "ycols": ["y{}".format(j) for j in range(ny)], "faults": faults, "freq": freq,
     }
 
 
